@@ -220,7 +220,7 @@ Section Conv.
     intros Hx Hy Tx Ty Kd No Ix Iy E Em. unfold idem_on in Ix, Iy.
     assert (Nxy : x <> y) by (intros ->; now apply No).
     assert (R : rust_name conv cc scope x = rust_name conv cc scope y).
-    { unfold emitted in Em. rewrite <- Kd in Em. destruct (is_const_kind (s_kind x)); [exact Em|].
+    { unfold emitted in Em.
       eapply display_inj_on; [exact E| | |exact Em]; cbn; tauto. }
     unfold rust_name in R. rewrite Tx, Ty in R.
     assert (KE : name0 conv cc x = name0 conv cc y -> key conv cc x = key conv cc y).
@@ -311,13 +311,13 @@ Proof.
   - vm_compute. reflexivity.
 Qed.
 
-(* ---- constants bypass Display: a const called like a keyword is pasted as it is (finding F-14n) -------- *)
-Lemma const_keyword_refuted :
+(* ---- constants go through Display like everything else (fix F-14n; the pinned code pasted the raw name) ---- *)
+Lemma const_keyword_escaped :
   forall (conv : kind -> string -> string),
     let scope := [mkSib KConst "in" None] in
-    emitted conv false scope (mkSib KConst "in" None) = "in" /\
-    plain_ident "in" = true /\ ident_token_ok (emitted conv false scope (mkSib KConst "in" None)) = false.
-Proof. intros conv. repeat split. Qed.
+    emitted conv false scope (mkSib KConst "in" None) = "r#in" /\
+    ident_token_ok (emitted conv false scope (mkSib KConst "in" None)) = true.
+Proof. intros conv. split; reflexivity. Qed.
 
 (* Display never yields a strict or reserved keyword *)
 Lemma keywords_no_hash : forallb (fun k => negb (has_hash k)) rust_keywords = true.
